@@ -672,6 +672,24 @@ def argument_case(ctx, r, cid):
          lambda: ClimateData(obs, g24, time_cycle=12,
                              silence_level=3).anomaly()),
     ]
+    # static helpers that take the caller's field
+    from pyunicorn.climate import RainfallClimateNetwork as _RCN
+    rain = np.abs(np.round(r.normal(size=(12, 5)) * 8) / 8)
+    rainF = np.asfortranarray(rain.copy())
+    calls += [
+        ("RainfallClimateNetwork.calculate_top_events", [rain],
+         lambda: _RCN.calculate_top_events(rain, (0, 1))),
+        ("RainfallClimateNetwork.calculate_top_events[fortran]", [rainF],
+         lambda: _RCN.calculate_top_events(rainF, (0, 1))),
+        ("RainfallClimateNetwork.calculate_rainfall", [rain],
+         lambda: _RCN.calculate_rainfall(rain, 2.0, 0.5)),
+        ("RainfallClimateNetwork.rank_time_series", [rain],
+         lambda: _RCN.rank_time_series(rain)),
+    ]
+    for vt in ("float64", "float32", "int32", "int16", "uint8"):
+        fld = np.round(r.normal(size=(6, 4)) * 8) / 8
+        calls.append((f"Data.rescale[{vt}]", [fld],
+                      lambda fld=fld, vt=vt: Data.rescale(fld, vt)))
     # node lists given as Python lists the caller keeps (e.g. the nodes_1 /
     # nodes_2 attributes of a coupled network)
     l1, l2 = [int(v) for v in nodes1], [int(v) for v in nodes2]
